@@ -20,8 +20,9 @@ def exchange(w, name, ps, sym, pw, ids, x, y, cyclesA=0, cyclesB=0, tags=(), mod
     pwB = pw if pwB is None else pwB
     idsB = ids if idsB is None else idsB
     sideA, sideB = ("S", "S") if sym else ("A", "B")
-    a = sc.new(sideA, ps, pw, ids[0], ids[1], w.entropy_for(ps, x))
-    b = sc.new(sideB, psB, pwB, idsB[0], idsB[1], w.entropy_for(psB, y))
+    rd = w.rng.choice([0, 0, 0, 1, 2])
+    a = sc.new(sideA, ps, pw, ids[0], ids[1], w.entropy_for(ps, x, redraws=rd))
+    b = sc.new(sideB, psB, pwB, idsB[0], idsB[1], w.entropy_for(psB, y, redraws=(0 if rd else w.rng.choice([0, 1]))))
     oa = sc.start(a, msg_mode if msg_mode != NONE else CLASS)
     ob = sc.start(b, msg_mode if msg_mode != NONE else CLASS)
     mA, mB = payload(oa), payload(ob)
@@ -71,7 +72,7 @@ def gen_C01(w, tier):
     for name, ps in w.ps.items():
         if ps.toy or ps.base:
             continue
-        reps = (14 if ps.kind == "ed" else 6) * (10 if big else 1)
+        reps = (14 if ps.kind == "ed" else 6) * (5 if big else 1)
         edges = w.edge_scalars(ps)
         combos = [(0, 0), (0, 1), (1, 0), (ps.q - 1, 1), (ps.q - 1, ps.q - 1), (1, 1), (5, 5)]
         for i in range(reps):
@@ -98,10 +99,10 @@ def gen_C01(w, tier):
         if q > 60 and not big:
             pairs = r.sample(pairs, 400)
         elif q > 60:
-            pairs = r.sample(pairs, min(len(pairs), 6000))
+            pairs = r.sample(pairs, min(len(pairs), 2500))
         elif not big and len(pairs) > 600:
             pairs = r.sample(pairs, 600)
-        for pw in pws[: (4 if big else 2)]:
+        for pw in pws[: (3 if big else 2)]:
             for sym in (False, True):
                 for (x, y) in pairs:
                     sc = exchange(w, "C01/%s/%d" % (name, n), ps, sym, pw, (b"", b"i"), x, y,
@@ -310,9 +311,9 @@ def gen_C02(w, tier):
         es = ps.esize
         flips = list(range(8 * (1 + es)))
         if not (is_ed and not ps.toy):
-            flips = r.sample(flips, 24 if not big else 200)
+            flips = r.sample(flips, min(len(flips), 24 if not big else 200))
         elif not big:
-            flips = r.sample(flips, 96)
+            flips = r.sample(flips, min(len(flips), 96))
         edits = []
         for bit in flips:
             edits.append(("bitflip", lambda m, o, bit=bit: m[:bit // 8] + bytes([m[bit // 8] ^ (1 << (bit % 8))]) + m[bit // 8 + 1:]))
